@@ -1,0 +1,36 @@
+//go:build verif
+
+package postgres
+
+import (
+	"database/sql"
+
+	"github.com/resonatehq/resonate/internal/aio"
+	"github.com/resonatehq/resonate/internal/kernel/bus"
+	"github.com/resonatehq/resonate/internal/kernel/t_aio"
+	"github.com/resonatehq/resonate/internal/metrics"
+)
+
+// NewWithDB builds the store exactly as New does (one worker), but over a
+// database handle supplied by the caller (verification harness: a driver that
+// executes the Postgres statements on a stand-in engine).
+func NewWithDB(aio aio.AIO, metrics *metrics.Metrics, config *Config, db *sql.DB) (*PostgresStore, error) {
+	sq := make(chan *bus.SQE[t_aio.Submission, t_aio.Completion], config.Size)
+
+	worker := &PostgresStoreWorker{
+		config:  config,
+		i:       0,
+		db:      db,
+		sq:      sq,
+		flush:   make(chan int64, 1),
+		aio:     aio,
+		metrics: metrics,
+	}
+
+	return &PostgresStore{
+		config:  config,
+		sq:      sq,
+		db:      db,
+		workers: []*PostgresStoreWorker{worker},
+	}, nil
+}
